@@ -113,6 +113,9 @@ func (m *monC13) TaskEnd(s *Sim, t *Task) {
 			rs := r.Status
 			if rs.Desired != 0 || rs.Current != 0 || rs.Ready != 0 || rs.Available != 0 {
 				s.Violate("C13", "gc-nonzero", "", "%s deleted replica set %s reporting desired=%d current=%d ready=%d available=%d", t.Label(), r.Name, rs.Desired, rs.Current, rs.Ready, rs.Available)
+				if ersCondTrue(&rs, edsv1.ConditionTypeCanaryFailed) {
+					s.Violate("C07", "deleted-with-pods", "", "%s deleted failed replica set %s while it still reports desired=%d current=%d ready=%d available=%d", t.Label(), r.Name, rs.Desired, rs.Current, rs.Ready, rs.Available)
+				}
 			}
 			if fc := ersCond(&rs, edsv1.ConditionTypeCanaryFailed); fc != nil && fc.Status == corev1.ConditionTrue {
 				s.Stats.NonVacuous["C07.retention"]++
